@@ -401,8 +401,27 @@ func init() {
 		}
 		return nil
 	}
+	// sync.Pool: Get may return any object Put earlier or a new one. Both are explored: when
+	// the pool holds something the path forks (reuse the most recent / allocate), so that
+	// state leaking through a recycled object is reachable. In concrete mode (translator
+	// validation) the most recent object is reused, as a single goroutine sees natively.
 	intrinsics["(*sync.Pool).Get"] = func(in *Interp, caller *frame, fn *ssa.Function, a []Value) Value {
 		p := a[0].(*Value)
+		key := fmt.Sprintf("pool%p", p)
+		if held, _ := in.scratch[key].([]Value); len(held) > 0 {
+			reuse := true
+			if in.cfg.Concrete == nil {
+				name := in.newInputName("sync.Pool-reuse")
+				k := in.choose(name, 2)
+				in.inputs = append(in.inputs, &Input{Name: name, Kind: "choice", T: []*Term{in.tt.Const(64, uint64(k))}, W: 64})
+				reuse = k == 1
+			}
+			if reuse {
+				v := held[len(held)-1]
+				in.scratch[key] = held[:len(held)-1]
+				return v
+			}
+		}
 		st := (*p).(Struct)
 		newFn := st[len(st)-1]
 		switch f := newFn.(type) {
@@ -415,7 +434,13 @@ func init() {
 		}
 		return in.call(caller, token.NoPos, newFn, nil)
 	}
-	intrinsics["(*sync.Pool).Put"] = nop
+	intrinsics["(*sync.Pool).Put"] = func(in *Interp, _ *frame, _ *ssa.Function, a []Value) Value {
+		p := a[0].(*Value)
+		key := fmt.Sprintf("pool%p", p)
+		held, _ := in.scratch[key].([]Value)
+		in.scratch[key] = append(held, a[1])
+		return nil
+	}
 
 	// ---- sync/atomic ----
 	atomicAdd := func(in *Interp, _ *frame, fn *ssa.Function, a []Value) Value {
